@@ -379,8 +379,10 @@ pub fn run_env_long<const L: usize, E: EnvLike<L>, W: Write>(h: &EnvHeader, env:
             if !matches!(op, EOp::Step) { instr += 1; }
             let i = live.step(op);
             if live.dead { verdict = format!("BAD:panic@step{}", r); break 'outer; }
-            if i.contains("sh=DIVERGE") { verdict = format!("BAD:shadow_DIVERGE@step{}", r); break 'outer; }
-            if i.contains("rngck=0") { verdict = format!("BAD:generator_not_advanced_by_exactly_one_shuffle@step{}", r); break 'outer; }
+            let mut bad: Vec<&str> = Vec::new();
+            if i.contains("sh=DIVERGE") { bad.push("shadow_DIVERGE"); }
+            if i.contains("rngck=0") { bad.push("generator_not_advanced_by_exactly_one_shuffle"); }
+            if !bad.is_empty() { verdict = format!("BAD:{}@step{}", bad.join("+"), r); break 'outer; }
         }
     }
     QUIET.store(false, std::sync::atomic::Ordering::Relaxed);
